@@ -57,9 +57,9 @@ func runKeyed(stream []byte, di *dialectInfo, key *[32]byte) ([]ref.Frame, int, 
 
 func TestC06Reader(t *testing.T) {
 	rec := evid.New(t, "C06", "frames signed by the reference (SHA-256 formula) must be delivered under the key; v1 frames, unsigned frames, frames signed under a key differing in one bit, every single-bit flip of a signed frame and permuted signatures must yield parse errors and no frame; non-trivial = a rejected variant; distinct by hash of (key, stream)")
-	rec.Require("tamper-header", "tamper-payload", "tamper-checksum", "tamper-linkid", "tamper-timestamp", "tamper-signature", "v1", "unsigned", "other-key", "valid-delivered")
+	rec.Require("tamper-header", "tamper-payload", "tamper-checksum", "tamper-linkid", "tamper-timestamp", "tamper-signature", "tamper-signature-2bits", "tamper-signature-byte", "forged-payload-enumerated-sig-byte", "v1", "unsigned", "other-key", "valid-delivered")
 	dpool := pool(t)
-	evid.Check(t, rec, evid.N(4000, 12000), func(t *rapid.T) {
+	evid.Check(t, rec, evid.N(1200, 5000), func(t *rapid.T) {
 		key := drawKey(t, "key")
 		var di *dialectInfo
 		var f ref.Frame
@@ -170,6 +170,38 @@ func TestC06Reader(t *testing.T) {
 				copy(bad, data)
 				bad[i] ^= 1 << uint(b)
 				reject(classOf(i), bad)
+			}
+		}
+		// the signature itself: every pair of flipped bits, and every other value of every signature byte
+		// (a comparison that is weaker than byte-wise equality of all 48 bits lets some of these through)
+		sigOff := hdr + pl + 9
+		for a := 0; a < 48; a++ {
+			for b := a + 1; b < 48; b++ {
+				copy(bad, data)
+				bad[sigOff+a/8] ^= 1 << uint(a%8)
+				bad[sigOff+b/8] ^= 1 << uint(b%8)
+				reject("tamper-signature-2bits", bad)
+			}
+		}
+		for i := 0; i < 6; i++ {
+			for v := 0; v < 256; v++ {
+				if byte(v) == data[sigOff+i] {
+					continue
+				}
+				copy(bad, data)
+				bad[sigOff+i] = byte(v)
+				reject("tamper-signature-byte", bad)
+			}
+		}
+		// a tampered payload combined with every value of one signature byte (a forger's enumeration)
+		if pl > 0 {
+			pi := hdr + rapid.IntRange(0, pl-1).Draw(t, "forge_byte")
+			si := sigOff + rapid.IntRange(0, 5).Draw(t, "forge_sig")
+			for v := 0; v < 256; v++ {
+				copy(bad, data)
+				bad[pi] ^= 0x40
+				bad[si] = byte(v)
+				reject("forged-payload-enumerated-sig-byte", bad)
 			}
 		}
 		if rec.WantSample("signed") {
